@@ -206,16 +206,24 @@ func (a *arRuntime) doRace(st arStep) arStepOut {
 		return time.Unix(0, st.NowB)
 	}
 	a.nowHook.Store(hook)
-	var sa int
-	done := make(chan struct{})
-	go func() { sa = a.send(rawA, false); close(done) }()
+	var sa, sb int
+	doneA := make(chan struct{})
+	doneB := make(chan struct{})
+	go func() { sa = a.send(rawA, false); close(doneA) }()
 	select {
 	case <-entered:
 	case <-time.After(3 * time.Second):
 	}
-	sb := a.send(rawB, false)
+	// B runs while A is held.  If the clock is read under the cache mutex (current code) B blocks
+	// on that mutex until A is released; if it is read before the mutex B completes first.
+	go func() { sb = a.send(rawB, false); close(doneB) }()
+	select {
+	case <-doneB:
+	case <-time.After(400 * time.Millisecond):
+	}
 	close(release)
-	<-done
+	<-doneA
+	<-doneB
 	a.nowHook.Store((func() time.Time)(nil))
 	out.TotalA = a.total()
 	a.takeRecords()
